@@ -912,6 +912,17 @@ class Constraints:
                 step = Decimal(str(of))
                 multiple = (Decimal(str(value)) / step).to_integral_value(rounding="ROUND_FLOOR") * step
                 return type(value)(multiple)
+            if isinstance(value, int) and not isinstance(of, int):
+                # a fractional step on an int rule: the result has to stay an integer
+                # (the largest integral multiple below the value, judged on the decimal text of the step)
+                step = Decimal(str(of))
+                count = (Decimal(value) / step).to_integral_value(rounding="ROUND_FLOOR")
+                for _ in range(10000):
+                    multiple = count * step
+                    if multiple == multiple.to_integral_value() or not count:
+                        return type(value)(int(multiple))
+                    count -= 1 if count > 0 else -1
+                raise ValueError
             return (value // of) * of
         return value
 
